@@ -79,6 +79,9 @@ static LIVE_BYTES: AtomicUsize = AtomicUsize::new(0);
 static ALLOC_COUNT: AtomicUsize = AtomicUsize::new(0);
 static ALLOC_BYTES: AtomicUsize = AtomicUsize::new(0);
 static OFF_MODE: AtomicUsize = AtomicUsize::new(0);
+static FAIL_AT: std::sync::atomic::AtomicIsize = std::sync::atomic::AtomicIsize::new(-1);
+static FAIL_SEEN: AtomicUsize = AtomicUsize::new(0);
+static FAIL_FIRED: AtomicUsize = AtomicUsize::new(0);
 static RECYCLED: AtomicUsize = AtomicUsize::new(0);
 static PAGE_MODE: AtomicUsize = AtomicUsize::new(0);
 static FIXED_OFF: AtomicUsize = AtomicUsize::new(0);
@@ -187,6 +190,15 @@ unsafe impl GlobalAlloc for SimAlloc {
         }
         ALLOC_COUNT.fetch_add(1, Relaxed);
         ALLOC_BYTES.fetch_add(l.size(), Relaxed);
+        // fault: the k-th allocation requested by library code from now on is refused
+        let fa = FAIL_AT.load(Relaxed);
+        if fa >= 0 {
+            let c = FAIL_SEEN.fetch_add(1, Relaxed);
+            if c as isize == fa {
+                FAIL_FIRED.store(1, Relaxed);
+                return std::ptr::null_mut();
+            }
+        }
         let npages = (l.size().max(1) + PAGE - 1) / PAGE;
         if !(READY.load(Relaxed) && ARENA_ON.load(Relaxed)) || npages > MAX_BLOCK_PAGES || l.align() > PAGE {
             COUNT_ONLY_LIVE.fetch_add(1, Relaxed);
@@ -476,6 +488,16 @@ pub fn live_blocks() -> usize {
 }
 pub fn live_bytes() -> usize {
     LIVE_BYTES.load(Relaxed)
+}
+/// Arm (k >= 0) or disarm (-1) the allocation-failure fault: the k-th library-side allocation
+/// from now on returns null.
+pub fn fail_at(k: isize) {
+    FAIL_SEEN.store(0, Relaxed);
+    FAIL_FIRED.store(0, Relaxed);
+    FAIL_AT.store(k, Relaxed);
+}
+pub fn fail_fired() -> bool {
+    FAIL_FIRED.load(Relaxed) != 0
 }
 /// bytes requested by library-side code since the start of the process
 pub fn alloc_bytes() -> usize {
